@@ -201,7 +201,7 @@ def run(run, tier, seed, replay_case=None):
     model = build_model()
     rng = random.Random(seed * 7919 + 19)
     corpus = C.load_corpus(PROP)
-    n = 500 if tier == "quick" else 8000
+    n = 500 if tier == "quick" else 4000
     cases = list(corpus) + exhaustive_small() + [gen_case(rng, tier) for _ in range(n)]
     if replay_case is not None:
         cases = [replay_case]
